@@ -232,3 +232,159 @@ Definition pi_defined (x a b c d : R) : Prop :=
   if Rltb x b then s_defined x a b else if Rltb c x then z_defined x c d else True.
 Lemma pi_defined_all x a b c d : pi_defined x a b c d.
 Proof. unfold pi_defined. rcases; [apply s_defined_all|apply z_defined_all|exact I]. Qed.
+
+(* ================================================================ gaussian families *)
+Lemma exp_le_mono s t : s <= t -> exp s <= exp t.
+Proof. intros [H|H]; [left; apply exp_increasing; exact H|subst; lra]. Qed.
+Lemma exp_le_1 t : t <= 0 -> exp t <= 1.
+Proof. intros H. rewrite <- exp_0. apply exp_le_mono. exact H. Qed.
+
+Definition gauss_defined (x sigma c : R) : Prop := sigma <> 0 /\ pow_defined ((x - c) / sigma) 2.
+Lemma gauss_defined_iff x sigma c : gauss_defined x sigma c <-> sigma <> 0.
+Proof. unfold gauss_defined. split; [intros [H _]; exact H|intros H; split; [exact H|apply pow_defined_2]]. Qed.
+
+Lemma gauss_eq x sigma c : mf_gauss RO x sigma c = exp (- (((x - c) / sigma) * ((x - c) / sigma)) / 2).
+Proof. unfold mf_gauss, rexp, rpow. unfold13. rewrite Rpow_2. f_equal. set (u := (x - c) / sigma). field. Qed.
+(* the documented closed form *)
+Lemma gauss_closed x sigma c : sigma <> 0 -> mf_gauss RO x sigma c = exp (- (x - c) ^ 2 / (2 * sigma ^ 2)).
+Proof. intros H. rewrite gauss_eq. f_equal. field. exact H. Qed.
+
+Lemma gauss_range x sigma c : 0 < mf_gauss RO x sigma c <= 1.
+Proof.
+  rewrite gauss_eq. split; [apply exp_pos|]. apply exp_le_1.
+  pose proof (Rle_0_sqr ((x - c) / sigma)) as H. unfold Rsqr in H. lra.
+Qed.
+Lemma gauss_peak sigma c : mf_gauss RO c sigma c = 1.
+Proof. rewrite gauss_eq. replace (c - c) with 0 by ring. unfold Rdiv. rewrite !Rmult_0_l, Ropp_0, Rmult_0_l. apply exp_0. Qed.
+
+Lemma sq_div_mono p q s : p * p <= q * q -> (p / s) * (p / s) <= (q / s) * (q / s).
+Proof.
+  intros H. unfold Rdiv. replace (p * / s * (p * / s)) with (p * p * (/ s * / s)) by ring.
+  replace (q * / s * (q * / s)) with (q * q * (/ s * / s)) by ring.
+  apply Rmult_le_compat_r; [|exact H]. pose proof (Rle_0_sqr (/ s)) as K. unfold Rsqr in K. exact K.
+Qed.
+Lemma gauss_rising x y sigma c : x <= y <= c -> mf_gauss RO x sigma c <= mf_gauss RO y sigma c.
+Proof.
+  intros H. rewrite !gauss_eq. apply exp_le_mono.
+  assert (K : (y - c) * (y - c) <= (x - c) * (x - c)) by nra.
+  pose proof (sq_div_mono _ _ sigma K). lra.
+Qed.
+Lemma gauss_falling x y sigma c : c <= x <= y -> mf_gauss RO y sigma c <= mf_gauss RO x sigma c.
+Proof.
+  intros H. rewrite !gauss_eq. apply exp_le_mono.
+  assert (K : (x - c) * (x - c) <= (y - c) * (y - c)) by nra.
+  pose proof (sq_div_mono _ _ sigma K). lra.
+Qed.
+
+Lemma gauss2_glue x s1 c1 s2 c2 :
+  mf_gauss2 RO x s1 c1 s2 c2 = if Rltb x c1 then mf_gauss RO x s1 c1 else if Rltb c2 x then mf_gauss RO x s2 c2 else 1.
+Proof. reflexivity. Qed.
+Lemma gauss2_range x s1 c1 s2 c2 : 0 < mf_gauss2 RO x s1 c1 s2 c2 <= 1.
+Proof. rewrite gauss2_glue. rcases; try apply gauss_range. lra. Qed.
+Lemma gauss2_core x s1 c1 s2 c2 : c1 <= x <= c2 -> mf_gauss2 RO x s1 c1 s2 c2 = 1.
+Proof. intros. rewrite gauss2_glue. rcases; lra. Qed.
+Lemma gauss2_rising x y s1 c1 s2 c2 : c1 <= c2 -> x <= y <= c1 -> mf_gauss2 RO x s1 c1 s2 c2 <= mf_gauss2 RO y s1 c1 s2 c2.
+Proof.
+  intros Hc H. rewrite !gauss2_glue. pose proof (gauss_range x s1 c1). rcases; try lra. apply gauss_rising. lra.
+Qed.
+Lemma gauss2_falling x y s1 c1 s2 c2 : c1 <= c2 -> c2 <= x <= y -> mf_gauss2 RO y s1 c1 s2 c2 <= mf_gauss2 RO x s1 c1 s2 c2.
+Proof.
+  intros Hc H. rewrite !gauss2_glue. pose proof (gauss_range y s2 c2). rcases; try lra. apply gauss_falling. lra.
+Qed.
+Definition gauss2_defined (x s1 c1 s2 c2 : R) : Prop :=
+  if Rltb x c1 then gauss_defined x s1 c1 else if Rltb c2 x then gauss_defined x s2 c2 else True.
+Lemma gauss2_defined_if x s1 c1 s2 c2 : s1 <> 0 -> s2 <> 0 -> gauss2_defined x s1 c1 s2 c2.
+Proof. intros. unfold gauss2_defined. rcases; try exact I; apply gauss_defined_iff; assumption. Qed.
+
+(* ================================================================ generalised bell *)
+Definition gbell_defined (x a b c : R) : Prop :=
+  a <> 0 /\ pow_defined (Rabs ((x - c) / a)) (2 * b) /\ Rpow (Rabs ((x - c) / a)) (2 * b) + 1 <> 0.
+Lemma gbell_eq x a b c : mf_gbell RO x a b c = 1 / (Rpow (Rabs ((x - c) / a)) (2 * b) + 1).
+Proof. reflexivity. Qed.
+Lemma gbell_den x a b c : 1 <= Rpow (Rabs ((x - c) / a)) (2 * b) + 1.
+Proof. pose proof (Rpow_nonneg (Rabs ((x - c) / a)) (2 * b) (Rabs_pos _)). lra. Qed.
+Lemma gbell_defined_if x a b c : a <> 0 -> 0 <= b -> gbell_defined x a b c.
+Proof.
+  intros Ha Hb. split; [exact Ha|]. split; [|pose proof (gbell_den x a b c); lra].
+  unfold pow_defined. destruct (Rabs_pos ((x - c) / a)) as [H|H]; [left; exact H|right; left; split; [symmetry; exact H|lra]].
+Qed.
+Lemma gbell_range x a b c : 0 < mf_gbell RO x a b c <= 1.
+Proof.
+  rewrite gbell_eq. pose proof (gbell_den x a b c) as D. set (q := Rpow _ _ + 1) in *. split.
+  - apply div_pos; lra.
+  - unfold Rdiv. rewrite Rmult_1_l. rewrite <- Rinv_1. apply Rinv_le_contravar; lra.
+Qed.
+Lemma gbell_peak a b c : 0 < b -> mf_gbell RO c a b c = 1.
+Proof.
+  intros Hb. rewrite gbell_eq. replace ((c - c) / a) with 0 by (unfold Rdiv; ring). rewrite Rabs_R0, Rpow_0 by lra. field.
+Qed.
+(* the further from the centre, the smaller: both flanks at once *)
+Lemma gbell_flanks x y a b c : a <> 0 -> 0 < b -> Rabs (x - c) <= Rabs (y - c) -> mf_gbell RO y a b c <= mf_gbell RO x a b c.
+Proof.
+  intros Ha Hb H. rewrite !gbell_eq. pose proof (gbell_den x a b c) as Dx. pose proof (gbell_den y a b c) as Dy.
+  assert (M : Rpow (Rabs ((x - c) / a)) (2 * b) <= Rpow (Rabs ((y - c) / a)) (2 * b)).
+  { apply Rpow_le_base; [lra|]. split; [apply Rabs_pos|]. unfold Rdiv. rewrite !Rabs_mult.
+    apply Rmult_le_compat_r; [apply Rabs_pos|exact H]. }
+  unfold Rdiv. rewrite !Rmult_1_l. apply Rinv_le_contravar; lra.
+Qed.
+
+(* ================================================================ sigmoid families *)
+Lemma sig_eq x a c : mf_sig RO x a c = 1 / (exp ((c - x) * a) + 1).
+Proof. reflexivity. Qed.
+(* the denominator is never 0: always defined *)
+Lemma sig_den x a c : 1 < exp ((c - x) * a) + 1.
+Proof. pose proof (exp_pos ((c - x) * a)). lra. Qed.
+Lemma sig_range x a c : 0 < mf_sig RO x a c < 1.
+Proof.
+  rewrite sig_eq. pose proof (sig_den x a c) as D. set (q := exp _ + 1) in *. split.
+  - apply div_pos; lra.
+  - apply div_lt1; lra.
+Qed.
+Lemma sig_centre a c : mf_sig RO c a c = / 2.
+Proof. rewrite sig_eq. replace ((c - c) * a) with 0 by ring. rewrite exp_0. field. Qed.
+Lemma sig_monotone x y a c : 0 <= a -> x <= y -> mf_sig RO x a c <= mf_sig RO y a c.
+Proof.
+  intros Ha H. rewrite !sig_eq. pose proof (sig_den x a c). pose proof (sig_den y a c).
+  assert (exp ((c - y) * a) <= exp ((c - x) * a)) by (apply exp_le_mono; nra).
+  unfold Rdiv. rewrite !Rmult_1_l. apply Rinv_le_contravar; lra.
+Qed.
+Lemma sig_antitone x y a c : a <= 0 -> x <= y -> mf_sig RO y a c <= mf_sig RO x a c.
+Proof.
+  intros Ha H. rewrite !sig_eq. pose proof (sig_den x a c). pose proof (sig_den y a c).
+  assert (exp ((c - x) * a) <= exp ((c - y) * a)) by (apply exp_le_mono; nra).
+  unfold Rdiv. rewrite !Rmult_1_l. apply Rinv_le_contravar; lra.
+Qed.
+(* in the centre parameter: a later centre gives a smaller value for a non-negative slope *)
+Lemma sig_centre_order x a c1 c2 : 0 <= a -> c1 <= c2 -> mf_sig RO x a c2 <= mf_sig RO x a c1.
+Proof.
+  intros Ha H. rewrite !sig_eq. pose proof (sig_den x a c1). pose proof (sig_den x a c2).
+  assert (exp ((c1 - x) * a) <= exp ((c2 - x) * a)) by (apply exp_le_mono; nra).
+  unfold Rdiv. rewrite !Rmult_1_l. apply Rinv_le_contravar; lra.
+Qed.
+Lemma sig_centre_order_neg x a c1 c2 : a <= 0 -> c2 <= c1 -> mf_sig RO x a c2 <= mf_sig RO x a c1.
+Proof.
+  intros Ha H. rewrite !sig_eq. pose proof (sig_den x a c1). pose proof (sig_den x a c2).
+  assert (exp ((c1 - x) * a) <= exp ((c2 - x) * a)) by (apply exp_le_mono; nra).
+  unfold Rdiv. rewrite !Rmult_1_l. apply Rinv_le_contravar; lra.
+Qed.
+
+(* difference of sigmoids: inside [0,1) for equal slopes and centres ordered with the sign of the slope *)
+Lemma dsig_range x a c1 c2 : (0 <= a /\ c1 <= c2) \/ (a <= 0 /\ c2 <= c1) -> 0 <= mf_dsig RO x a c1 a c2 < 1.
+Proof.
+  intros H. unfold mf_dsig. unfold13. pose proof (sig_range x a c1). pose proof (sig_range x a c2).
+  destruct H as [[Ha Hc]|[Ha Hc]].
+  - pose proof (sig_centre_order x a c1 c2 Ha Hc). lra.
+  - pose proof (sig_centre_order_neg x a c1 c2 Ha Hc). lra.
+Qed.
+(* without the ordering the value leaves [0,1] - the reason for the property's precondition *)
+Lemma dsig_unordered_negative : exists x a c1 c2, 0 < a /\ c2 < c1 /\ mf_dsig RO x a c1 a c2 < 0.
+Proof.
+  exists 0, 1, 1, 0. split; [lra|]. split; [lra|]. unfold mf_dsig. unfold13. rewrite (sig_centre 1 0).
+  rewrite sig_eq. replace ((1 - 0) * 1) with 1 by ring.
+  assert (2 < exp 1 + 1) by (pose proof exp_ineq1 1 ltac:(lra); lra).
+  assert (1 / (exp 1 + 1) < / 2).
+  { unfold Rdiv. rewrite Rmult_1_l. apply Rinv_lt_contravar; nra. }
+  lra.
+Qed.
+Lemma psig_range x a1 c1 a2 c2 : 0 < mf_psig RO x a1 c1 a2 c2 < 1.
+Proof. unfold mf_psig. unfold13. pose proof (sig_range x a1 c1). pose proof (sig_range x a2 c2). nra. Qed.
